@@ -176,11 +176,44 @@ func runC11M4(c *Ctx, m *c11Model) {
 	if m.idxFld == "" {
 		return // reported by the model
 	}
+	// the index is told from other maps of the same type (a map[string]tls.Certificate of the PEM loader or of an issuing
+	// source) by where it is filled: below the publish entry or a function that installs the index field, or in a map
+	// read from the index field
+	var builders []*ssa.Function
+	if m.entry != nil {
+		builders = append(builders, m.entry)
+	}
+	for _, f := range c.fnsWhere("cert", func(f *ssa.Function) bool {
+		hit := false
+		eachInstr(f, func(i ssa.Instruction) {
+			if _, isStore := i.(*ssa.Store); isStore && m.isIndexWrite(i) {
+				hit = true
+			}
+		})
+		return hit
+	}) {
+		builders = append(builders, f)
+	}
+	inBuilder := map[*ssa.Function]bool{}
+	for _, f := range c11region(c, builders...) {
+		inBuilder[f] = true
+	}
+	fromIndexField := func(v ssa.Value) bool {
+		return derives(v, func(x ssa.Value) bool {
+			switch y := x.(type) {
+			case *ssa.FieldAddr:
+				return m.idxPath[c11fieldKey(y.X.Type(), y.Field)]
+			case *ssa.Field:
+				return m.idxPath[c11fieldKey(y.X.Type(), y.Field)]
+			}
+			return false
+		})
+	}
 	n := 0
 	for _, f := range c.fnsWhere("cert", func(*ssa.Function) bool { return true }) {
 		eachInstr(f, func(i ssa.Instruction) {
 			mu, ok := i.(*ssa.MapUpdate)
-			if !ok || !m.isIndexMap(mu.Map) {
+			if !ok || !m.isIndexMap(mu.Map) || !(inBuilder[f] || fromIndexField(mu.Map)) {
 				return
 			}
 			c.check("C11.M4", fnKey(f)+"|index key "+shortPath(mu.Key)+" is a name", i.Pos(), c11keyIsName(i.Block(), mu.Key, 0, &n),
